@@ -298,7 +298,12 @@ class OrdinaryKriging:
             self.perf_dist, self.perf_mat, self.perf_solv = [], [], []
 
         if len(x) != 1 or not isinstance(x[0], MetricSpace):
-            self.transform_coords = MetricSpace(np.column_stack(x).copy(), self.dist_metric, self.range if self.sparse else None)
+            self.transform_coords = MetricSpace(
+                np.column_stack(x).copy(),
+                self.dist_metric,
+                self.range if self.sparse else None,
+                dist_metric_kwargs=self.dist_metric_kwargs
+            )
         else:
             self.transform_coords = x[0]
         self.transform_coords_pair = MetricSpacePair(self.transform_coords, self.coords)
